@@ -92,3 +92,73 @@ Definition bw_pinned := bw_with super_pinned.
 
 (* BowyerWatson: Position attribute of the returned mesh *)
 Definition positions (pts : list pt) : list (Q * Q * Q) := map (fun p => (fst p, 0, snd p)) pts.
+
+(* ---- the Go map's iteration order made explicit ----
+   `range triangulation` visits the map in an arbitrary order, different on every loop.  sched k T is
+   the order in which the k-th loop over the map sees its content T (k < n: the bad-triangle search
+   of insertion k; k = n: the final clean-up / the index buffer of BowyerWatson).  bw_with is the
+   instance sched = identity; bw_order_independent (BowyerWatsonProofs.v) shows every other
+   schedule yields the same set of triangles. *)
+Definition bw_all_sched (sched : nat -> list tri -> list tri) (super : list pt -> list pt)
+           (pts : list pt) : list tri :=
+  let n := length pts in
+  fold_left (fun T i => insert (pts ++ super pts) (sched i T) i) (seq 0 n) [super_tri n].
+Definition bw_with_sched (sched : nat -> list tri -> list tri) (super : list pt -> list pt)
+           (pts : list pt) : option (list tri) :=
+  let n := length pts in
+  if (n <? 3)%nat then None
+  else Some (filter (fun t => negb (has_super n t)) (sched n (bw_all_sched sched super pts))).
+
+(* BowyerWatson: the index buffer (three entries per triangle, in map order) *)
+Definition indices (ts : list tri) : list nat := flat_map (fun t => let '(a, b, c) := t in [a; b; c]) ts.
+
+(* ---- specification vocabulary used by the theorems (Properties/C20.v) ---- *)
+Definition same_set {A} (l m : list A) : Prop := forall x, In x l <-> In x m.
+
+(* no three input points on a line (implies pairwise distinct points when there are >= 3) *)
+Definition general_position (pts : list pt) : Prop :=
+  forall i j k, (i < j < k)%nat -> (k < length pts)%nat ->
+    ~ orient (nth i pts pzero) (nth j pts pzero) (nth k pts pzero) == 0.
+Definition general_positionb (pts : list pt) : bool :=
+  let ix := seq 0 (length pts) in
+  forallb (fun i => forallb (fun j => forallb (fun k =>
+    negb ((i <? j)%nat && (j <? k)%nat) ||
+    negb (Qeq_bool (orient (nth i pts pzero) (nth j pts pzero) (nth k pts pzero)) 0)) ix) ix) ix.
+
+Definition distinct3 (t : tri) : Prop := let '(a, b, c) := t in a <> b /\ b <> c /\ c <> a.
+
+Definition super_gtri (super : list pt -> list pt) (pts : list pt) : gtri :=
+  let s := super pts in (nth 0 s pzero, nth 1 s pzero, nth 2 s pzero).
+
+(* the in-circle determinant of a resolved triangle; in_circb P t p = (gincircle (resolve P t) p < 0) *)
+Definition gincircle (g : gtri) (p : pt) : Q := let '(a, b, c) := g in incircle a b c p.
+
+(* the invariant of the incremental algorithm: no already inserted point (old j) lies strictly inside
+   the circumcircle of a triangle of the current triangulation, in the algorithm's own sense *)
+Definition empty_for (P : list pt) (T : list tri) (old : nat -> Prop) : Prop :=
+  forall t j, In t T -> old j -> in_circb P t (nth j P pzero) = false.
+
+(* the boundary polygon of the cavity of point i, and the two facts about it the classical
+   correctness argument needs *)
+Definition cavity_boundary (P : list pt) (T : list tri) (i : nat) : list edge := polygon (bad_of P T i).
+(* the cavity is strictly star-shaped from the new point: it sees every boundary edge from the inside
+   (triangles are clockwise, so "inside" is the negative side of the directed edge) *)
+Definition star_shaped (P : list pt) (T : list tri) (i : nat) : Prop :=
+  forall e, In e (cavity_boundary P T i) ->
+    orient (nth (fst e) P pzero) (nth (snd e) P pzero) (nth i P pzero) < 0.
+(* the triangulation continues behind a boundary edge wherever an old point lies strictly beyond it *)
+Definition continues_behind (P : list pt) (T : list tri) (i : nat) (old : nat -> Prop) : Prop :=
+  forall e j, In e (cavity_boundary P T i) -> old j ->
+    0 < orient (nth (fst e) P pzero) (nth (snd e) P pzero) (nth j P pzero) ->
+    exists g, In g T /\ In (snd e, fst e) (edges g).
+
+(* the triangulation before insertion k, the points inserted so far (incl. the super vertices), and
+   the hypothesis of the conditional correctness theorem: at every step the cavity is star-shaped
+   and the triangulation continues behind its boundary *)
+Definition bw_state (super : list pt -> list pt) (pts : list pt) (k : nat) : list tri :=
+  fold_left (insert (pts ++ super pts)) (seq 0 k) [super_tri (length pts)].
+Definition old_at (n k j : nat) : Prop := (j < k)%nat \/ (n <= j < n + 3)%nat.
+Definition cavities_ok (super : list pt -> list pt) (pts : list pt) : Prop :=
+  forall k, (k < length pts)%nat ->
+    star_shaped (pts ++ super pts) (bw_state super pts k) k /\
+    continues_behind (pts ++ super pts) (bw_state super pts k) k (old_at (length pts) k).
